@@ -87,6 +87,22 @@ def run(chk):
                 return "tables stored unchanged, indices 0..n-1"
             chk.run("C15.R1", f"{MOD}:DataGeneratorObservations.__post_init__", cfg, go, construct="observation tables stored")
 
+    # two observed parameters given in different shapes: each stored table is its OWN user table
+    for shapes in (("2d", "1d"), ("1d", "2d"), ("1d", "1d")):
+        cfg = {"observed_eq_params": {"nu": shapes[0], "th": shapes[1]}}
+
+        def go2(shapes=shapes):
+            n = 12
+            tabs = {k_: table(k_.upper(), (n,) if sh == "1d" else (n, 1)) for k_, sh in zip(('nu', 'th'), shapes)}
+            gen = G.cls("DataGeneratorObservations")(Sym('key'), 4, table('IN', (n, 2)), table('VAL', (n, 1)), dict(tabs))
+            for k_, sh in zip(('nu', 'th'), shapes):
+                exp = tabs[k_][:, None] if sh == "1d" else to_at(tabs[k_])
+                got = gen.fields['observed_eq_params'][k_]
+                if not same(got, exp):
+                    raise Violation(f"observed_eq_params[{k_}]", str(got)[:140], f"the user's table for {k_} as (n, 1): {str(exp)[:100]}")
+            return "each observed parameter stores its own table as (n, 1)"
+        chk.run("C15.R1", f"{MOD}:DataGeneratorObservations.__post_init__", cfg, go2, construct="observed parameter tables stored")
+
     # ---------------- R2 parameter tables
     def param_gen(user_data, ranges):
         return G.param(keys=tuple(sorted(set(user_data) | set(ranges))), user_data=user_data,
@@ -133,6 +149,25 @@ def run(chk):
             raise Violation("priority", f"samples['nu'] = {samples['nu']}", "the user's table (priority over the range)")
         return "table wins over the range for the same key"
     chk.run("C15.R2", f"{MOD}:DataGeneratorParameter.generate_data", {"key_in_both": True}, go_prio, construct="table priority")
+
+    # grid method: every key gets the regular grid of ITS OWN range (concrete small count: the grid vector is the list of its points)
+    for m in (3, 4):
+        def go_grid(m=m):
+            from fractions import Fraction
+            from ..alg import lift
+            gen = G.cls("DataGeneratorParameter")(Sym('key'), m, 2, {"nu": (K('nu_lo'), K('nu_hi')), "th": (K('th_lo'), K('th_hi'))}, 'grid')
+            for k_ in ('nu', 'th'):
+                v = gen.fields['param_n_samples'][k_]
+                if isinstance(v, Sym):
+                    raise Inconclusive(f"grid samples of {k_} are not concrete-count vectors: {str(v)[:120]}")
+                v = to_at(v)
+                lo, hi = lift(K(f'{k_}_lo')), lift(K(f'{k_}_hi'))
+                want = sorted(str(lo + (hi - lo) * Fraction(i, m)) for i in range(m))
+                got = sorted(str(p_) for p_ in v.entries())
+                if tuple(v.axes) != (m, 1) or got != want:
+                    raise Violation(f"grid samples[{k_}]", f"axes {v.axes}: {got}", f"(m, 1): {want}")
+            return "each key: the regular grid of its own range"
+        chk.run("C15.R2", f"{MOD}:DataGeneratorParameter.generate_data", {"method": "grid", "n": m}, go_grid, construct="grid per key")
 
     # ---------------- R4 multi-network loader
     orders = [(('a', 'b'), ('a', 'b'), ('a', 'b')), (('a', 'b'), ('b', 'a'), ('a', 'b')), (('a', 'b'), ('a', 'b'), ('b', 'a')),
